@@ -514,6 +514,8 @@ func genC05(tier string, seed uint64) []genOut {
 				q := append([]string{"iterR", itoa(sg), hx(f), hx(t), "~", keep, allFlags[r.Intn(8)]}, cb.genOps(cb.n[sg])...)
 				cb.q(q...)
 			}
+			// (second pass: these may take an iterator whose actual bitmap was replaced as prealloc)
+			cb.iterQueries(sg, 6)
 		}
 		out = append(out, genOut{cb.c, adv && excl && (mc || class != "tiny"), class})
 	}
@@ -820,6 +822,17 @@ func genC13(tier string, seed uint64) []genOut {
 					}
 					cb.q("dv", itoa(sg), hxList(fs), intList(order))
 				}
+			case 3:
+				// an iterator whose actual bitmap was replaced by the caller's own, reused later
+				if cb.c.Segs[sg].Kind == "build" && cb.n[sg] > 0 {
+					f := cb.u.fields[r.Intn(len(cb.u.fields))]
+					t := cb.u.terms[r.Intn(len(cb.u.terms))]
+					keep := cb.genExcept(cb.n[sg])
+					if keep == "~" {
+						keep = "-"
+					}
+					cb.q(append([]string{"iterR", itoa(sg), hx(f), hx(t), "~", keep, allFlags[r.Intn(8)]}, cb.genOps(cb.n[sg])...)...)
+				}
 			case 2:
 				// DocsMatchingTerms keeps one dictionary and one postings list across the terms of a call
 				fs := append(cb.queryFields(), []byte("nosuch"))
@@ -1035,6 +1048,11 @@ func genC17(tier string, seed uint64) []genOut {
 		}
 		out = append(out, genOut{cb.c, cb.n[flat] > 0 && k >= 3, class})
 	}
+	naa := 2
+	if tier == "thorough" {
+		naa = 10
+	}
+	out = append(out, genAdaptiveAssoc("C17", seed, naa)...)
 	return out
 }
 
@@ -1572,6 +1590,50 @@ func genUpsertMerge(prop string, seed uint64, count int) []genOut {
 			cb.q("stored", fs, itoa(d), "-1")
 		}
 		out = append(out, genOut{cb.c, cb.n[final] > 0, "upsert-merge"})
+	}
+	return out
+}
+
+
+// adaptiveAssoc: bracketings of merges in the adaptive chunk mode whose deletions take a term's
+// cardinality across a multiple of 1024 at one step but not at another: flat merge with the
+// deletions, deletions applied in an inner single-segment merge, deletions translated through an
+// inner merge of everything.
+func genAdaptiveAssoc(prop string, seed uint64, count int) []genOut {
+	var out []genOut
+	for i := 0; i < count; i++ {
+		r := NewRng(seed, prop+"-adaptive-assoc", uint64(i))
+		cb := newCaseBuilder(caseID(prop+"aa", seed, i), r)
+		cb.u.fields = [][]byte{[]byte("_id"), []byte("t")}
+		n1, n2 := r.Range(600, 760), r.Range(500, 700)
+		mk := func(n int, pfx string) []Doc {
+			docs := cb.adaptiveBatch(n, pfx)
+			for d := range docs {
+				docs[d] = append(docs[d], FieldInst{Name: []byte("t"), Length: 1, Terms: []TermOcc{{Term: []byte("x"), Freq: 1}}})
+			}
+			return docs
+		}
+		s1 := cb.addBuild(mk(n1, "a"), 1025, "pub")
+		s2 := cb.addBuild(mk(n2, "b"), 1025, "pub")
+		// enough deletions in s1 to bring n1+n2 (>= 1100) below 1024
+		need := n1 + n2 - 1024 + r.Range(5, 60)
+		if need > n1 {
+			need = n1
+		}
+		var d1 []uint32
+		for _, x := range permute(r, n1)[:need] {
+			d1 = append(d1, uint32(x))
+		}
+		sort.Slice(d1, func(a, b int) bool { return d1[a] < d1[b] })
+		flat := cb.addMerge([]MergeIn{{Seg: s1, Drops: d1}, {Seg: s2, Nil: true}}, 1025, "pub", bufSize(r))
+		inner1 := cb.addMerge([]MergeIn{{Seg: s1, Drops: d1}}, 1025, "pub", bufSize(r))
+		v1 := cb.addMerge([]MergeIn{{Seg: inner1, Nil: true}, {Seg: s2, Nil: true}}, 1025, "pub", bufSize(r))
+		all := cb.addMerge([]MergeIn{{Seg: s1, Nil: true}, {Seg: s2, Nil: true}}, 1025, "pub", bufSize(r))
+		v2 := cb.addMerge([]MergeIn{{Seg: all, Drops: d1}}, 1025, "pub", bufSize(r)) // s1 comes first: its numbers are unchanged
+		cb.adaptiveQueries(flat)
+		cb.same(flat, v1, "assoc")
+		cb.same(flat, v2, "assoc")
+		out = append(out, genOut{cb.c, true, "adaptive-assoc"})
 	}
 	return out
 }
